@@ -1,2 +1,167 @@
-/- C17 correspondence driver (stub: replaced when the property's model is built) -/
-def main : IO Unit := IO.println "stub"
+import PnVerif.Model.IdTable
+/-
+  C17 correspondence driver: same request lines as harness/c17_life.c, answered by the id-table model
+  (Model/IdTable.lean) with a small per-file object (counts, mode flags, pending requests).
+
+    CFG <nullCheck 0|1> <NC_MAX_NFILES>      selects the PNC_check_id variant the library follows
+    (all other requests: see harness/c17_life.c)
+-/
+open PnVerif.IdTable
+
+namespace C17
+
+structure FSt where
+  k : Nat
+  ndims : Nat := 0
+  nvars : Nat := 0
+  natts : Nat := 0
+  indef : Bool := false
+  fresh : Bool := false      -- created, initial define mode never left: abort deletes the file
+  rdonly : Bool := false
+  pending : Nat := 0
+  attached : Bool := false
+
+structure W where
+  nullCheck : Bool := false
+  tab : Tab FSt := init FSt 1024
+  exist : List Bool := List.replicate 8 false
+  store : List (Nat × Nat × Nat) := List.replicate 8 (0, 0, 0)
+
+def nat! (s : String) : Nat := s.toNat?.getD 0
+def int! (s : String) : Int := s.toInt?.getD 0
+
+def outStr : Outcome → String
+  | .ret e => toString e
+  | .crash => "SIG11"
+
+/-- the per-file part of an API call: object transformer + error code -/
+def callFn (kind : String) : Option (FSt → FSt × Int) :=
+  match kind with
+  | "NDIMS" | "NVARS" | "INQPATH" | "INQFORMAT" => some (fun p => (p, 0))
+  | "INQATT" | "GETVAR" | "WAITALL" | "BEGININDEP" => some (fun p => (p, 0))   -- used in probes of closed ids only
+  | "DEFDIM" => some (fun p => if p.indef then ({ p with ndims := p.ndims + 1 }, 0) else (p, -38))
+  | "DEFVAR" => some (fun p => if p.indef then ({ p with nvars := p.nvars + 1 }, 0) else (p, -38))
+  | "PUTATT" => some (fun p => if p.rdonly then (p, -37) else if p.indef then ({ p with natts := p.natts + 1 }, 0) else (p, -38))
+  | "ENDDEF" => some (fun p => if p.indef then ({ p with indef := false, fresh := false }, 0) else (p, -38))
+  | "REDEF" => some (fun p => if p.rdonly then (p, -37) else if p.indef then (p, -39) else ({ p with indef := true }, 0))
+  | "SYNC" => some (fun p => if p.indef then (p, -39) else (p, 0))
+  | "IPUT" => some (fun p => if p.rdonly then (p, -37) else if p.indef then (p, -39) else if p.nvars = 0 then (p, -49)
+                            else ({ p with pending := p.pending + 1 }, 0))
+  | "ATTACH" => some (fun p => if p.attached then (p, -216) else ({ p with attached := true }, 0))
+  | "DETACH" => some (fun p => if p.attached then ({ p with attached := false }, 0) else (p, -217))
+  | _ => none
+
+/-- the value printed after the error code by value-returning calls -/
+def callVal (kind : String) (p : FSt) : String :=
+  match kind with
+  | "NDIMS" => s!" {p.ndims}"
+  | "NVARS" => s!" {p.nvars}"
+  | "INQPATH" => s!" c17_{p.k}.nc"
+  | "INQFORMAT" => " 1"
+  | _ => ""
+
+def badVal (kind : String) : String :=
+  match kind with
+  | "NDIMS" | "NVARS" | "INQFORMAT" => " -1"
+  | "INQPATH" => " -"
+  | _ => ""
+
+def closeErr (p : FSt) : Int := (closeStatus 0 0 0 p.pending 0 0 0).1
+
+def doCreate (w : W) (p : FSt) (derr : Int) : W × String :=
+  let (t, o, id) := step w.nullCheck w.tab (.create p derr)
+  ({ w with tab := t }, s!"{outStr o} {id}")
+
+/-- in-process call on id; `probe`: executed in a forked child, so no state change survives -/
+def doCall (w : W) (id : Int) (kind : String) (probe : Bool) : W × String :=
+  if kind == "CLOSE" ∨ kind == "ABORT" then
+    let f : FSt → Int := if kind == "CLOSE" then closeErr else fun _ => 0
+    match checkId w.nullCheck w.tab id with
+    | .ok p =>
+      if probe then (w, "probe-on-open-id") else
+      let (t, o, _) := step w.nullCheck w.tab (.close id f)
+      let w := { w with tab := t }
+      let w := if kind == "CLOSE" then { w with store := w.store.set p.k (p.ndims, p.nvars, p.natts) }
+               else if p.fresh then { w with exist := w.exist.set p.k false }
+               else w
+      (w, outStr o)
+    | _ =>
+      let (_, o, _) := step w.nullCheck w.tab (.close id f)
+      (w, outStr o)
+  else match callFn kind with
+    | none => (w, "bad-kind")
+    | some f =>
+      match checkId w.nullCheck w.tab id with
+      | .ok p =>
+        if probe then (w, "probe-on-open-id") else
+        let (t, o, _) := step w.nullCheck w.tab (.call id f)
+        let p' := (f p).1
+        let w := { w with tab := t }
+        let w := if kind == "ENDDEF" ∧ (f p).2 = 0 then { w with store := w.store.set p.k (p'.ndims, p'.nvars, p'.natts) } else w
+        (w, outStr o ++ (if (f p).2 = 0 then callVal kind p' else badVal kind))
+      | _ =>
+        let (_, o, _) := step w.nullCheck w.tab (.call id f)
+        (w, match o with | .crash => "SIG11" | .ret e => toString e ++ badVal kind)
+
+def occupied (t : Tab FSt) : List (Nat × FSt) :=
+  (List.range t.slots.length).filterMap (fun i => match t.slots[i]? with | some (some p) => some (i, p) | _ => none)
+
+def stepLine (w : W) (line : String) : W × String :=
+  match line.trimAscii.toString.splitOn " " with
+  | ["CFG", b, n] => ({ w with nullCheck := b == "1", tab := init FSt (nat! n) }, "cfg")
+  | ["CREATE", k] =>
+    let k := nat! k % 8
+    let (w, s) := doCreate w { k := k, indef := true, fresh := true } 0
+    if s.startsWith "0 " then ({ w with exist := w.exist.set k true, store := w.store.set k (0, 0, 0) }, s) else (w, s)
+  | ["CREATEX", k] =>
+    let k := nat! k % 8
+    if (w.exist[k]?).getD false then doCreate w { k := k } (-35)
+    else
+      let (w, s) := doCreate w { k := k, indef := true, fresh := true } 0
+      if s.startsWith "0 " then ({ w with exist := w.exist.set k true, store := w.store.set k (0, 0, 0) }, s) else (w, s)
+  | ["OPEN", k, wr] =>
+    let k := nat! k % 8
+    if ¬ (w.exist[k]?).getD false then (w, "-220 -1")      -- ncmpi_inq_file_format fails before an id is taken
+    else
+      let (nd, nv, na) := (w.store[k]?).getD (0, 0, 0)
+      doCreate w { k := k, ndims := nd, nvars := nv, natts := na, rdonly := wr == "0" } 0
+  | ["OPENJUNK"] => (w, "FAIL -1")
+  | ["OPENMISSING"] => (w, "FAIL -1")
+  | ["CREATEBAD", v] =>
+    if v == "1" then (w, "FAIL -1")                          -- NC_EINVAL_CMODE: rejected before an id is taken
+    else
+      let (w, _) := doCreate w { k := 0 } (-220)             -- driver create fails: id taken and given back
+      (w, "FAIL -1")
+  | ["OPENTRUNC", _, _] => (w, "done")
+  | ["PROBE", id, kind] => doCall w (int! id) kind true
+  | ["FILL", k, n] =>
+    let k := nat! k % 8
+    let (nd, nv, na) := (w.store[k]?).getD (0, 0, 0)
+    let rec go (w : W) (n : Nat) (acc : List String) : W × List String :=
+      match n with
+      | 0 => (w, acc.reverse)
+      | n + 1 =>
+        let (t, o, id) := step w.nullCheck w.tab (.create { k := k, ndims := nd, nvars := nv, natts := na, rdonly := true } 0)
+        go { w with tab := t } n (s!"{outStr o}:{id}" :: acc)
+    let (w, l) := go w (nat! n) []
+    (w, " ".intercalate l)
+  | ["SNAP"] =>
+    let occ := occupied w.tab
+    (w, s!"0 {w.tab.num}" ++ String.join (occ.map (fun (i, p) => s!" {i}:{p.ndims}:{p.nvars}:{p.natts}")))
+  | ["LEAK"] => (w, "malloc=0 type=0 comm=0 info=0 file=0")
+  | [kind, id] => doCall w (int! id) kind false
+  | _ => (w, "bad-op")
+
+partial def loop (h : IO.FS.Stream) (out : IO.FS.Stream) (w : W) : IO Unit := do
+  let line ← h.getLine
+  if line.isEmpty then return ()
+  let (w', ans) := stepLine w line
+  out.putStrLn ans
+  out.flush
+  loop h out w'
+
+end C17
+
+def main : IO Unit := do
+  let out ← IO.getStdout
+  C17.loop (← IO.getStdin) out {}
